@@ -943,6 +943,13 @@ impl Database {
             })
             .collect();
 
+        let non_unique_index_names: Vec<String> = table_def
+            .indexes()
+            .iter()
+            .filter(|idx| idx.index_type() == IndexType::BTree && !idx.is_unique())
+            .map(|idx| idx.name().to_string())
+            .collect();
+
         let hnsw_indexes: Vec<(String, usize)> = table_def
             .indexes()
             .iter()
@@ -1796,6 +1803,7 @@ impl Database {
             if !any_modified {
                 continue;
             }
+            let row_key_suffix = non_unique_index_names.contains(index_name);
             if file_manager.index_exists(schema_name, table_name, index_name) {
                 let index_storage_arc =
                     file_manager.index_data_mut(schema_name, table_name, index_name)?;
@@ -1809,7 +1817,7 @@ impl Database {
 
                 let mut index_btree = BTree::new(&mut *index_storage, index_root_page)?;
 
-                for (_row_key, _old_value, new_row_values, old_row_values, _old_toast) in
+                for (row_key, _old_value, new_row_values, old_row_values, _old_toast) in
                     &rows_to_update
                 {
                     let old_all_non_null = col_indices
@@ -1822,6 +1830,9 @@ impl Database {
                             if let Some(value) = old_row_values.get(col_idx) {
                                 Self::encode_value_as_key(value, &mut key_buf);
                             }
+                        }
+                        if row_key_suffix {
+                            key_buf.extend_from_slice(row_key);
                         }
                         let _ = index_btree.delete(&key_buf);
                     }
@@ -1836,6 +1847,9 @@ impl Database {
                             if let Some(value) = new_row_values.get(col_idx) {
                                 Self::encode_value_as_key(value, &mut key_buf);
                             }
+                        }
+                        if row_key_suffix {
+                            key_buf.extend_from_slice(row_key);
                         }
                         if let Some(pk_idx) = columns
                             .iter()
